@@ -8,7 +8,7 @@ from typing import Dict, List, Optional, Set, Tuple
 from sa.index import AnalysisError, ClassInfo
 from sa.models import shape_str, strip_opt
 from sa.report import Ctx
-from sa.sym import NONE, Evaluator, Summary, show, walk, conjuncts
+from sa.sym import NONE, Evaluator, Summary, show, subst, walk, conjuncts
 
 from .aoef import ADAPTERS_MOD, AOEF_PKG, DATA_ADAPTER, Aoef, Collection, Leaf, attr_reads, camel, relfile
 from .c01 import C01, Types
@@ -151,6 +151,32 @@ class C02:
                 return True
         return False
 
+    def _expand_new_adapter_methods(self, t, dep_cls, owner, depth=0):
+        """`self.<adapter>.reference(x)` where `reference` is a method the reference tree does not have (`return
+        self._get_aoef_key(self.to_aoef(obj))`): its value, with `_get_aoef_key(<converted object>)` read as the identifier of that object"""
+        from sa.sym import PINNED, fold_sub
+        if not isinstance(t, tuple) or not t or depth > 3:
+            return t
+        if not isinstance(t[0], str):
+            return tuple(self._expand_new_adapter_methods(c, dep_cls, owner, depth) for c in t)
+        t = tuple(self._expand_new_adapter_methods(c, dep_cls, owner, depth) if isinstance(c, tuple) else c for c in t)
+        SELF = ("param", "self")
+        if t[0] == "call" and t[1][0] == "attr" and t[1][2] == "_get_aoef_key" and len(t[2]) == 1 and not t[3]:
+            return ("attr", t[2][0], "uuid")
+        if t[0] == "call" and t[1][0] == "attr" and t[1][1][0] == "attr" and t[1][1][1] == SELF and t[1][2] not in ("to_aoef", "to_soundevent", "from_id", "values"):
+            cls = dep_cls.get(t[1][1][2])
+            found = cls.find_method(t[1][2]) if cls is not None else None
+            if found is not None and f"{found[0].name}.{t[1][2]}" not in PINNED.get(found[0].module.name, ()):
+                try:
+                    ms = self.ctx.summ.of_node(found[0].module, found[1], f"{found[0].qual}.{t[1][2]}", found[0])
+                except Exception:  # noqa: BLE001
+                    return t
+                if len(ms.returns) == 1 and not ms.raises and not ms.of("store") and len(t[2]) == len(ms.params) - 1 and not t[3]:
+                    mp = {("param", ms.params[0]): t[1][1]}
+                    mp.update({("param", p_): a_ for p_, a_ in zip(ms.params[1:], t[2])})
+                    return self._expand_new_adapter_methods(fold_sub(subst(ms.returns[0].term, mp)), dep_cls, owner, depth + 1)
+        return t
+
     def check_refs(self, name, owner: ClassInfo, meth: str, D: ClassInfo, O: ClassInfo, dep_cls):
         """Reference keywords of one writer; dep_cls: attr -> adapter class (or '' for self)."""
         ctx, m = self.ctx, self.ctx.models
@@ -171,6 +197,7 @@ class C02:
             if g in ("uuid", "id"):
                 continue
             site = f"{file}:{wret.lineno} {func}"
+            v = self._expand_new_adapter_methods(v, dep_cls, owner)
             convs = []
             for x in walk(v):
                 mc = self.ao.method_call(x)
@@ -562,7 +589,15 @@ def check_own_list_uniqueness(ctx: Ctx, c):
                 if v[0] == "comp" and v[1] == "list" and len(v[3]) == 1 and v[3][0][1][0] == "attr" and v[3][0][1][1] == objp and not v[3][0][2] \
                         and v[2][0] == "call" and v[2][1][0] == "attr" and v[2][1][2] == "to_aoef":
                     fld = v[3][0][1][2]
-                    ctx.bad("R02.7", ci.module.relpath, f"{ci.name}.to_aoef", f"{k}=[<adapter>.to_aoef(o) for o in obj.{fld}]",
+                    # the list belongs to the most general collection that has it (a Dataset is a RecordingSet: the same list, the same
+                    # repeated input, whichever of the two classes spells the conversion out)
+                    own = ci
+                    by_qual = {c_.ci.qual: c_ for c_ in c.ao.collections}
+                    for anc in ci.mro():
+                        c_ = by_qual.get(anc.qual)
+                        if c_ is not None and k in ctx.models.field_map(c_.O):
+                            own = anc
+                    ctx.bad("R02.7", own.module.relpath, f"{own.name}.to_aoef", f"{k}=[<adapter>.to_aoef(o) for o in obj.{fld}]",
                             f"the top-level list `{k}` of the document is the collection's own list converted element by element: an object "
                             f"that occurs twice in obj.{fld} (the data models accept it) is written twice with the same identifier, so "
                             f"identifiers are not unique within the list (the sub-adapter's values() would list it once)", r.lineno,
